@@ -601,9 +601,9 @@ SPECS['C20']['obligations'] = SPECS['C20']['obligations'] + _rejorder
 SPECS['C06']['obligations'] = SPECS['C06']['obligations'] + _pair('c06', 'text_codepoints', (120, 300), 'IDENT and ASCII; 1- and 2-character texts with a code point at 0, 31, 126..129, 255/256, 2047/2048, 65535/65536, 0x10FFFF: enumeration',
     ['write_struct_ident', 'write_struct_ascii'], replay=ENC, validate=ENC) + _pair('c06', 'dtime_year', (60, 120), 'year over all integers', ['write_struct_dtime'], replay=ENC, validate=ENC)
 SPECS['C12']['obligations'] = SPECS['C12']['obligations'] + _find('C06', 'ob_text_codepoints') + _find('C06', 'ob_dtime_year')
-_tle = _pair('c06', 'text_len_edges', (200, 400), 'real str texts of 1, 8, 16, 32, 64, 100, 128, 200, 255, 256, 512, 1000, 1024, 4096, 16384, 65536 (+-1) characters x IDENT by dispatch / ASCII by dispatch / write_struct_ident: enumeration',
-             ['write_struct', 'write_struct_ident', 'write_struct_ascii'], replay=ENC, validate=ENC)
-for _c in ('C04', 'C05', 'C06', 'C12'):
+_tle = _pair('c06', 'text_len_edges', (200, 400), 'real str texts of 1, 8, 16, 32, 64, 100, 128, 200, 255, 256, 512, 1000, 1024, 4096, 16384, 65536 (+-1) characters x IDENT by dispatch / ASCII by dispatch / write_struct_ident / object name in OBNAME / in OBJREF: enumeration',
+             ['write_struct', 'write_struct_ident', 'write_struct_ascii', 'write_struct_obname', 'write_struct_objref'], replay=ENC, validate=ENC, shards=(5, 5))
+for _c in ('C04', 'C05', 'C06', 'C07', 'C12'):
     SPECS[_c]['obligations'] = SPECS[_c]['obligations'] + _tle
 SPECS['C05']['obligations'] = SPECS['C05']['obligations'] + _find('C06', 'ob_ident_len') + _find('C06', 'reach_ident_len') + _find('C06', 'wit_ident_long')
 SPECS['C17']['obligations'] = SPECS['C17']['obligations'] + _pair('c11', 'check_data', (120, 300), '8 dtypes x scalar / width 1..3 x mode', ['LogicalFile._check_data'])
